@@ -9,14 +9,18 @@ Local Open Scope Z_scope.
 Lemma one_is_one : f_of_Z 1 = 1%float.
 Proof. reflexivity. Qed.
 
+(** int() of a non-finite float raises (OverflowError / ValueError): the translation returns None there. *)
 Lemma trf_quantize_to_step_eq t sps :
-  trf_quantize_to_step t sps cutoff = Some (q2s t sps).
+  trf_quantize_to_step t sps cutoff =
+  if finb (t * sps + one_minus_cutoff)%float then Some (q2s t sps) else None.
 Proof.
   unfold trf_quantize_to_step, q2s, one_minus_cutoff. cbn zeta. rewrite one_is_one. reflexivity.
 Qed.
 
-Lemma sixty : (0x1.e000000000000p+5)%float = 60%float.
-Proof. reflexivity. Qed.
+Lemma trf_quantize_to_step_finite t sps :
+  finb (t * sps + one_minus_cutoff)%float = true ->
+  trf_quantize_to_step t sps cutoff = Some (q2s t sps).
+Proof. intros H. rewrite trf_quantize_to_step_eq, H. reflexivity. Qed.
 
 Lemma trf_sps_eq spq qpm :
   trf_steps_per_quarter_to_steps_per_second spq qpm = Some (sps_rel spq qpm).
